@@ -7,6 +7,7 @@ import Driver.SaveCmd
 import Driver.NandCmd
 import Driver.CloseCmd
 import Driver.CodecCmd
+import Driver.SchedCmd
 open Pyctr
 
 /-- `(fileops NODE (OP …))` → one rendered output per op, then the bottom buffers -/
@@ -45,6 +46,7 @@ def handle (line : String) : String :=
     | "save-run" | "cmac" => handleSave cmd args
     | "nand-open" | "nand-ops" | "nand-hdr" => handleNand cmd args
     | "close-run" => handleClose args
+    | "sched-check" => handleSched args
     | "apptitle" | "smdh-bits" | "tiled" | "seeddb" | "cfg-load" | "cfg-build" | "lzss" | "desc-rt" | "bits16" => handleCodec cmd args
     | "ping" => "pong"
     | _ => "bad-cmd"
